@@ -57,6 +57,12 @@ type c11Graph struct {
 	Nodes    []c11Node `json:"nodes"`            // topological order; the last node feeds END
 	Before   []string  `json:"before,omitempty"` // resume family: interrupt options of this graph level
 	After    []string  `json:"after,omitempty"`
+	// resume family: a Pregel cycle.  After node LoopFrom a branch leads back to node LoopTo
+	// (LoopTo <= LoopFrom) LoopN more times, then on to the next node / END: the nodes
+	// LoopTo..LoopFrom are executed LoopN+1 times.  LoopN = 0: no cycle.
+	LoopFrom int `json:"loopFrom,omitempty"`
+	LoopTo   int `json:"loopTo,omitempty"`
+	LoopN    int `json:"loopN,omitempty"`
 }
 
 type c11Interrupt struct {
